@@ -91,6 +91,17 @@ Theorem C11_ifold_law : forall f a0 a1 rest z0 z1 zs,
 Proof. exact ifold_law_proof. Qed.
 Print Assumptions C11_ifold_law.
 
+(* the operands are checked strictly left to right (fix 2e0440e), constants and groups alike: the FIRST
+   operand that fails decides - a non-integer gives <BAD-TYPE>, a zero divisor of divi/modi gives
+   <VALUE> - whatever follows it (so `{modi 1023 0 {0} 2 x 3}` is <VALUE> and `{modi 1023 x 0}` is <BAD-TYPE>) *)
+Theorem C11_ifold_first_failure : forall f a0 pre z0 zs acc a post,
+  atoi (a_val a0) = Some z0 -> parses pre zs -> ifold_spec f z0 zs = Some acc ->
+  (atoi (a_val a) = None -> f_ifold f (a0 :: pre ++ a :: post) = Ok ErrorNum) /\
+  (atoi (a_val a) = Some 0 -> f = Divi \/ f = Modi -> f_ifold f (a0 :: pre ++ a :: post) = Ok ErrorValue) /\
+  (atoi (a_val a0) = Some z0 -> forall b rest, atoi (a_val b) = None -> f_ifold f (b :: a0 :: rest) = Ok ErrorNum).
+Proof. exact ifold_first_failure_proof. Qed.
+Print Assumptions C11_ifold_first_failure.
+
 (* ... which is the mathematical sum while no partial sum leaves int64, and the list max / min *)
 Theorem C11_sumi_sum : forall zs acc, partial_sums_in_range acc zs ->
   ifold_spec Sumi acc zs = Some (fold_left Z.add zs acc).
